@@ -193,7 +193,7 @@ def temporal_case(ctx, rng, idx):
             h.add_edge(e, t)
     else:
         try:
-            live, _ = history.run_history(NullCtx(), rng, cfg, battery_every=0)
+            live, _ = history.run_history(history.BuildCtx(ctx, "C20"), rng, cfg, battery_every=0)
         except Exception as e:
             ctx.note("build-failed:" + type(e).__name__)
             return
